@@ -140,14 +140,18 @@ def cases(rng, tier, shard, nshards, phase):
         elif st == "vector":
             spec = gen.gen_ranked_spec(rng, nmin=2, nmax=5, ties=True, partial=True, bmin=1, bmax=5)
             n = len(spec["c"])
-            ln = rng.randint(2, n + 1)
+            ln = rng.randint(1, n + 1)        # a vector of a single entry is legal too (it is padded with zeros)
             vals = sorted([Fraction(rng.randint(0, 9)) for _ in range(ln)], reverse=True)
             kind = rng.choice(["negative", "increasing", "flat", "zero", "valid"])
+            if ln == 1 and kind == "increasing":
+                kind = "negative"
             eps = Fraction(1, 10 ** 6) if rng.random() < 0.5 else Fraction(rng.randint(1, 4))
             j = rng.randrange(ln)
             if kind == "negative":
                 vals = [v + 1 for v in vals]
                 vals[-1] = -eps
+                if rng.random() < 0.3:
+                    vals = [-eps - i for i in range(ln)]       # negative from the first entry on (non-increasing)
             elif kind == "increasing":
                 j = rng.randrange(1, ln)
                 vals[j] = vals[j - 1] + eps
